@@ -413,10 +413,12 @@ int vd_tree_main(int argc, char **argv)
  * specification's vocabulary (node ids: the k-th new node in pre-order gets the k-th smallest free id).
  * Trace_Tree.tla accepts the log iff every step is a step of Tree.tla.
  * ====================================================================================================== */
-#define RN 10
-static cJSON *rp[RN + 1]; static int rroot[RN + 1];
+#define RNMAX 32
+static int RN = 10;                 /* node slots of the recorded histories (--nodes) */
+static cJSON *rp[RNMAX + 1]; static int rroot[RNMAX + 1];
 static FILE *tracef; static long trace_events;
-static const char *RKEYS[] = { "a", "A", "b", "B", "ab" };
+static const char *RKEYS[] = { "a", "A", "b", "B", "ab", "\xc3\x84p", "z{", "Z[" };
+#define NRKEYS 8
 static const char *RSTRS[] = { "", "x", "xy", "hello" };
 static unsigned rs_state;
 static unsigned rnd(unsigned n) { rs_state = rs_state * 1103515245u + 12345u; return (rs_state >> 16) % (n ? n : 1); }
@@ -478,6 +480,7 @@ int vd_treerand_main(int argc, char **argv)
         if (!strcmp(argv[k], "--seed") && k + 1 < argc) seed = (unsigned)atoi(argv[k + 1]);
         if (!strcmp(argv[k], "--histories") && k + 1 < argc) histories = atoi(argv[k + 1]);
         if (!strcmp(argv[k], "--steps") && k + 1 < argc) steps = atoi(argv[k + 1]);
+        if (!strcmp(argv[k], "--nodes") && k + 1 < argc) { RN = atoi(argv[k + 1]); if (RN > RNMAX) RN = RNMAX; if (RN < 2) RN = 2; }
     }
     if (!out) { fprintf(stderr, "treerand: --trace <file> required\n"); return 2; }
     tracef = fopen(out, "w"); rs_state = seed * 2654435761u + 7;
@@ -488,7 +491,7 @@ int vd_treerand_main(int argc, char **argv)
         al_case_begin(); cm_case_begin(); memset(rp, 0, sizeof(rp)); memset(rroot, 0, sizeof(rroot));
         fputs("{\"e\":\"Reset\"}\n", tracef);
         for (step = 0; step < steps; step++) {
-            int conts[RN], nc = 0, arrs[RN], na = 0, objs[RN], no = 0, roots[RN], nr = 0, lives[RN], nl = 0, i, op;
+            int conts[RNMAX], nc = 0, arrs[RNMAX], na = 0, objs[RNMAX], no = 0, roots[RNMAX], nr = 0, lives[RNMAX], nl = 0, i, op;
             for (i = 1; i <= RN; i++) if (rp[i]) { int kc = rp[i]->type & 0xFF; lives[nl++] = i; if (rroot[i]) roots[nr++] = i; if (kc == cJSON_Array) { arrs[na++] = i; conts[nc++] = i; } if (kc == cJSON_Object) { objs[no++] = i; conts[nc++] = i; } }
             op = (int)rnd(24);
             if (!VD_TRY()) { vd_violation("random history %d step %d: memory fault in the library", hist, step); fclose(tracef); return 1; }
@@ -513,7 +516,7 @@ int vd_treerand_main(int argc, char **argv)
                 if (r) rroot[it] = 0;
                 after_call(NULL); res_bool(r);
             } else if (op < 12 && no && nr) {                                  /* add to object */
-                int p = objs[rnd((unsigned)no)], it = roots[rnd((unsigned)nr)], r, mode = (int)rnd(3); const char *key = RKEYS[rnd(5)];
+                int p = objs[rnd((unsigned)no)], it = roots[rnd((unsigned)nr)], r, mode = (int)rnd(3); const char *key = RKEYS[rnd(NRKEYS)];
                 if (p != it && rsubtree_has(rp[it], rp[p])) { VD_END(); continue; }
                 if (mode == 2 && rp[it]->string && p != it) { fprintf(tracef, "{\"e\":\"Call\",\"a\":[\"AddItemToObjectAlias\",%d,%d,0]", p, it); r = cJSON_AddItemToObject(rp[p], rp[it]->string, rp[it]); }
                 else if (mode == 1) { char *ck = cm_string(key); r = cJSON_AddItemToObjectCS(rp[p], ck, rp[it]); fprintf(tracef, "{\"e\":\"Call\",\"a\":[\"AddItemToObjectCS\",%d,", p); jbytes(tracef, key); fprintf(tracef, ",%d,0]", it); }
@@ -521,7 +524,7 @@ int vd_treerand_main(int argc, char **argv)
                 if (r) rroot[it] = 0;
                 after_call(NULL); res_bool(r);
             } else if (op < 13 && no && rfree_count() > 0) {                   /* Add<X>ToObject */
-                int p = objs[rnd((unsigned)no)]; const char *key = RKEYS[rnd(5)]; cJSON *n; int what = (int)rnd(4);
+                int p = objs[rnd((unsigned)no)]; const char *key = RKEYS[rnd(NRKEYS)]; cJSON *n; int what = (int)rnd(4);
                 if (what == 0) { n = cJSON_AddNullToObject(rp[p], key); fprintf(tracef, "{\"e\":\"Call\",\"a\":[\"AddNewToObject\",%d,", p); jbytes(tracef, key); fputs(",\"null\",[-1],0,0]", tracef); }
                 else if (what == 1) { n = cJSON_AddNumberToObject(rp[p], key, 2); fprintf(tracef, "{\"e\":\"Call\",\"a\":[\"AddNewToObject\",%d,", p); jbytes(tracef, key); fputs(",\"num\",[-1],2,0]", tracef); }
                 else if (what == 2) { n = cJSON_AddStringToObject(rp[p], key, "xy"); fprintf(tracef, "{\"e\":\"Call\",\"a\":[\"AddNewToObject\",%d,", p); jbytes(tracef, key); fputs(",\"str\",[120,121],0,0]", tracef); }
@@ -531,7 +534,7 @@ int vd_treerand_main(int argc, char **argv)
                 int p = conts[rnd((unsigned)nc)]; cJSON *d; int mode = (int)rnd(4);
                 if (mode == 0) { int n = cJSON_GetArraySize(rp[p]); cJSON *c = n ? cJSON_GetArrayItem(rp[p], (int)rnd((unsigned)n)) : NULL; if (!c) { VD_END(); continue; } fprintf(tracef, "{\"e\":\"Call\",\"a\":[\"DetachItemViaPointer\",%d,%d]", p, rid_of(c)); d = cJSON_DetachItemViaPointer(rp[p], c); }
                 else if (mode == 1 && (rp[p]->type & 0xFF) == cJSON_Array) { int idx = (int)rnd(5) - 1; fprintf(tracef, "{\"e\":\"Call\",\"a\":[\"DetachItemFromArray\",%d,%d]", p, idx); d = cJSON_DetachItemFromArray(rp[p], idx); }
-                else if ((rp[p]->type & 0xFF) == cJSON_Object) { const char *key = RKEYS[rnd(5)]; int cs = (int)rnd(2); fprintf(tracef, "{\"e\":\"Call\",\"a\":[\"%s\",%d,", cs ? "DetachItemFromObjectCaseSensitive" : "DetachItemFromObject", p); jbytes(tracef, key); fputs("]", tracef); d = cs ? cJSON_DetachItemFromObjectCaseSensitive(rp[p], key) : cJSON_DetachItemFromObject(rp[p], key); }
+                else if ((rp[p]->type & 0xFF) == cJSON_Object) { const char *key = RKEYS[rnd(NRKEYS)]; int cs = (int)rnd(2); fprintf(tracef, "{\"e\":\"Call\",\"a\":[\"%s\",%d,", cs ? "DetachItemFromObjectCaseSensitive" : "DetachItemFromObject", p); jbytes(tracef, key); fputs("]", tracef); d = cs ? cJSON_DetachItemFromObjectCaseSensitive(rp[p], key) : cJSON_DetachItemFromObject(rp[p], key); }
                 else { VD_END(); continue; }
                 if (d) rroot[rid_of(d)] = 1;
                 after_call(NULL); res_ptr(d);
@@ -539,7 +542,7 @@ int vd_treerand_main(int argc, char **argv)
                 int it = roots[rnd((unsigned)nr)];
                 if (nc && rnd(2)) { int p = conts[rnd((unsigned)nc)];
                     if ((rp[p]->type & 0xFF) == cJSON_Array) { int idx = (int)rnd(4) - 1; fprintf(tracef, "{\"e\":\"Call\",\"a\":[\"DeleteItemFromArray\",%d,%d]", p, idx); cJSON_DeleteItemFromArray(rp[p], idx); }
-                    else { const char *key = RKEYS[rnd(5)]; int cs = (int)rnd(2); fprintf(tracef, "{\"e\":\"Call\",\"a\":[\"%s\",%d,", cs ? "DeleteItemFromObjectCaseSensitive" : "DeleteItemFromObject", p); jbytes(tracef, key); fputs("]", tracef); if (cs) cJSON_DeleteItemFromObjectCaseSensitive(rp[p], key); else cJSON_DeleteItemFromObject(rp[p], key); }
+                    else { const char *key = RKEYS[rnd(NRKEYS)]; int cs = (int)rnd(2); fprintf(tracef, "{\"e\":\"Call\",\"a\":[\"%s\",%d,", cs ? "DeleteItemFromObjectCaseSensitive" : "DeleteItemFromObject", p); jbytes(tracef, key); fputs("]", tracef); if (cs) cJSON_DeleteItemFromObjectCaseSensitive(rp[p], key); else cJSON_DeleteItemFromObject(rp[p], key); }
                 } else { fprintf(tracef, "{\"e\":\"Call\",\"a\":[\"Delete\",%d]", it); cJSON_Delete(rp[it]); }
                 after_call(NULL); fputs(",\"res\":{\"t\":\"void\"}", tracef);
             } else if (op < 21 && nc && nr) {                                  /* replace */
@@ -548,7 +551,7 @@ int vd_treerand_main(int argc, char **argv)
                 if (mode == 0) { int n = cJSON_GetArraySize(rp[p]); cJSON *c = n ? cJSON_GetArrayItem(rp[p], (int)rnd((unsigned)n)) : NULL; if (!c || (isobj && !rp[r]->string)) { VD_END(); continue; }
                     fprintf(tracef, "{\"e\":\"Call\",\"a\":[\"ReplaceItemViaPointer\",%d,%d,%d]", p, rid_of(c), r); ok = cJSON_ReplaceItemViaPointer(rp[p], c, rp[r]); }
                 else if (!isobj) { int idx = (int)rnd(4) - 1; fprintf(tracef, "{\"e\":\"Call\",\"a\":[\"ReplaceItemInArray\",%d,%d,%d]", p, idx, r); ok = cJSON_ReplaceItemInArray(rp[p], idx, rp[r]); }
-                else { const char *key = RKEYS[rnd(5)]; int cs = (int)rnd(2); fprintf(tracef, "{\"e\":\"Call\",\"a\":[\"%s\",%d,", cs ? "ReplaceItemInObjectCaseSensitive" : "ReplaceItemInObject", p); jbytes(tracef, key); fprintf(tracef, ",%d,0]", r);
+                else { const char *key = RKEYS[rnd(NRKEYS)]; int cs = (int)rnd(2); fprintf(tracef, "{\"e\":\"Call\",\"a\":[\"%s\",%d,", cs ? "ReplaceItemInObjectCaseSensitive" : "ReplaceItemInObject", p); jbytes(tracef, key); fprintf(tracef, ",%d,0]", r);
                     ok = cs ? cJSON_ReplaceItemInObjectCaseSensitive(rp[p], key, rp[r]) : cJSON_ReplaceItemInObject(rp[p], key, rp[r]); }
                 if (ok) rroot[r] = 0;
                 after_call(NULL); res_bool(ok);
